@@ -150,9 +150,13 @@ ApplyN(name, arr, s, axes0, norm) ==
        [] name \in {"irfft2", "irfftn"} ->
             Along(Iter(arr, "ifft", axes, s, norm, 1, k - 1), "irfft", axes[k], last, norm)
 
+\* the empty tuple () as s or axes (<<>> already stands for None): no axis is transformed
+EmptyT == <<NoneI>>
 \* a case: [name, x (array), n, axis, s, axes, norm]
 Eval(c) ==
-  IF c.name \in Names1
+  IF c.name \notin Names1 /\ (c.s = EmptyT \/ c.axes = EmptyT)
+  THEN c.x          \* complex-to-complex transform over no axes: the input itself
+  ELSE IF c.name \in Names1
   THEN Along(c.x, c.name, IF c.axis = NoneI THEN -1 ELSE c.axis, c.n, c.norm)
   ELSE ApplyN(c.name, c.x, c.s, c.axes, c.norm)
 
